@@ -17,14 +17,17 @@ _ASSUME = ['process death only: a write(2) that returned is on disk; power loss 
 
 reg(Prop('C02', 'Kevo.Props.C02', facts=['facts:wal.*', 'facts:storage.*'], components=[CRASH], fact_tags=['wal', 'storage'],
          rule=_RULE, assumptions=_ASSUME))
-from oracledefs import walfault, txvis
+from oracledefs import walfault, txvis, engine as _eng
+ENGINE_C03 = Comp('engine', n_quick=120, n_thorough=2000, oracle=_eng.engine_oracle, nontrivial=_eng.engine_nontrivial, stats=_eng.engine_stats,
+                  chunk_min=10, timeout=900)
 TXVIS = Comp('txvis', n_quick=32, n_thorough=400, oracle=txvis.txvis_oracle, nontrivial=txvis.txvis_nontrivial, stats=txvis.txvis_stats,
              differential=False, chunk_min=2, timeout=900, shrink=False)
 WALFAULT_C03 = Comp('walfault', n_quick=36, n_thorough=600, oracle=walfault.walfault_c03_oracle, nontrivial=walfault.walfault_nontrivial,
                     stats=walfault.walfault_stats, chunk_min=4, timeout=1200, shrink=False)
 
-reg(Prop('C03', 'Kevo.Props.C03', facts=['facts:wal.*', 'facts:storage.*', 'facts:txbuf.*'], components=[CRASH, WALFAULT_C03, TXVIS], fact_tags=['wal', 'storage'],
+reg(Prop('C03', 'Kevo.Props.C03', facts=['facts:wal.*', 'facts:storage.*', 'facts:txbuf.*'], components=[CRASH, WALFAULT_C03, TXVIS, ENGINE_C03], fact_tags=['wal', 'storage'],
          rule=_RULE + ' Plus component walfault with the all-or-nothing-per-batch oracle on every cut offset (torn writes): this is the recorded '
               'finding KF-C03-torn-batch (no batch frame / commit marker in the log format). Plus implementation-only component txvis: plain '
               'readers read the first and the last key of transactions being committed (yield hook between the memtable inserts): '
-              'the second read is never older than the first.', assumptions=_ASSUME))
+              'the second read is never older than the first. Plus component engine (the harness overwrites its key/value buffers after '
+              'every tx.Put / tx.Delete: captured at call time; last operation per key wins).', assumptions=_ASSUME))
